@@ -31,7 +31,7 @@ UNGATED, GATED = "ungated", "gated"
 # attribute objects hanging off `self` whose methods cannot emit SSH messages
 PASSIVE = {
     "lock", "event", "status_event", "in_buffer", "in_stderr_buffer", "out_buffer_cv", "_pipe", "logger",
-    "clear_to_send", "clear_to_send_lock", "completion_event", "_channels", "channel_events",
+    "clear_to_send", "clear_to_send_lock", "completion_event", "_global_response_event", "_channels", "channel_events",
     "server_accept_cv", "server_accepts", "channels_seen", "subsystem_table",
 }
 USER_CALLBACKS = {"_forward_agent_handler", "_x11_handler", "_tcp_handler"}
@@ -160,6 +160,9 @@ class Walker:
             return ("ok",)      # module-level constant dict, e.g. CONNECTION_FAILED_CODE.get
         if isinstance(recv, ast.Constant) and isinstance(recv.value, str) and name in ("format", "join"):
             return ("ok",)
+        if (isinstance(recv, ast.Name) and recv.id == "event" and f.name == "global_request"
+                and name in ("wait", "is_set")):
+            return ("ok",)      # the local threading.Event global_request waits on (C18 repair)
         if isinstance(recv, ast.Name) and recv.id == "x" and f.name == "set_keepalive" and name == "global_request":
             return ("edge", ("Transport", "global_request"))      # the weakref proxy in set_keepalive
         raise RuntimeError("unrecognised call " + where)
